@@ -1,1 +1,200 @@
-// harnesses for module response (included under cfg(kani))
+// C04 / C03 / C05: parse_response_head and parse_response on enumerated concrete heads.
+
+include!("hmacro.rs");
+
+mod verif_response {
+    use super::*;
+    use crate::verif::{Fault, Script, Seg};
+
+    pub struct Field {
+        pub name: HeaderName,
+        pub value: &'static [u8],
+    }
+
+    pub enum Want {
+        Err,
+        Ok { status: u16, fields: &'static [Field] },
+    }
+
+    /// Parses `head ‖ tail` (tail = symbolic body bytes that must stay untouched in the reader) and
+    /// compares status + header fields with what the layout means.
+    pub fn head_case(head: &[u8], tail_len: usize, seg: Seg, cap: usize, max_headers: usize, want: &Want) {
+        let mut wire = [0u8; crate::verif::WIRE_CAP];
+        let mut n = 0;
+        while n < head.len() {
+            wire[n] = head[n];
+            n += 1;
+        }
+        let mut tail = [0u8; 4];
+        let mut i = 0;
+        while i < tail_len {
+            tail[i] = kani::any();
+            wire[n] = tail[i];
+            n += 1;
+            i += 1;
+        }
+        let mut script = Script::new(wire, n, seg, Fault::Eof);
+        let mut reader = BufReader::with_capacity(cap, script.handle());
+        let r = parse_response_head(&mut reader, max_headers);
+        match (&r, want) {
+            (Ok((status, headers)), Want::Ok { status: ws, fields }) => {
+                assert!(status.as_u16() == *ws, "C04: status code differs from the status line");
+                assert!(headers.len() == fields.len(), "C04: header field lost or invented");
+                // every expected (name, value) in wire order among the values of that name
+                let mut k = 0;
+                while k < fields.len() {
+                    let f = &fields[k];
+                    // index of this field among the earlier fields with the same name
+                    let mut nth = 0;
+                    let mut j = 0;
+                    while j < k {
+                        if fields[j].name == f.name {
+                            nth += 1;
+                        }
+                        j += 1;
+                    }
+                    let mut it = headers.get_all(&f.name).iter();
+                    let mut got = it.next();
+                    let mut s = 0;
+                    while s < nth {
+                        got = it.next();
+                        s += 1;
+                    }
+                    match got {
+                        Some(v) => assert!(v.as_bytes() == f.value, "C04: header value differs from the wire / wrong order"),
+                        None => assert!(false, "C04: header field missing"),
+                    }
+                    k += 1;
+                }
+                // hand-off: the reader is positioned exactly at the first body byte
+                let mut b = [0u8; 4];
+                let mut got = 0;
+                while got < tail_len {
+                    match reader.read(&mut b[got..tail_len]) {
+                        Ok(0) => break,
+                        Ok(m) => got += m,
+                        Err(e) => {
+                            std::mem::forget(e);
+                            break;
+                        }
+                    }
+                }
+                assert!(got == tail_len, "C01: body bytes lost at the head/body boundary");
+                let mut t = 0;
+                while t < tail_len {
+                    assert!(b[t] == tail[t], "C01: body bytes altered at the head/body boundary");
+                    t += 1;
+                }
+            }
+            (Err(_), Want::Err) => {}
+            (Ok(_), Want::Err) => assert!(false, "C04/C05: malformed or over-limit head accepted"),
+            (Err(_), Want::Ok { .. }) => assert!(false, "C04: valid head rejected"),
+        }
+        std::mem::forget(r);
+        std::mem::forget(reader);
+    }
+
+    const NONE: &[Field] = &[];
+
+    /// status-line variants without header fields: every listed (status line, expected code)
+    fn status_table(rows: &[(&[u8], u16)], seg: Seg, cap: usize) {
+        let mut i = 0;
+        while i < rows.len() {
+            let (line, code) = rows[i];
+            let mut head = [0u8; 48];
+            let mut n = 0;
+            while n < line.len() {
+                head[n] = line[n];
+                n += 1;
+            }
+            head[n] = b'\r';
+            head[n + 1] = b'\n';
+            head[n + 2] = b'\r';
+            head[n + 3] = b'\n';
+            n += 4;
+            if code == 0 {
+                head_case(&head[..n], 1, seg, cap, 100, &Want::Err);
+            } else {
+                head_case(&head[..n], 1, seg, cap, 100, &Want::Ok { status: code, fields: NONE });
+            }
+            i += 1;
+        }
+        kani::cover!(true, "must: table walked");
+    }
+
+    verif_harness!(c04_q_head_status_1xx_2xx, 40, {
+        status_table(&[(b"HTTP/1.1 100 Continue", 100), (b"HTTP/1.1 101 S", 101), (b"HTTP/1.1 199", 199), (b"HTTP/1.1 200 OK", 200), (b"HTTP/1.1 204 No Content", 204)], Seg::Whole, 64);
+    });
+    verif_harness!(c04_q_head_status_3xx_4xx, 40, {
+        status_table(&[(b"HTTP/1.1 299 x", 299), (b"HTTP/1.0 300 ", 300), (b"HTTP/2 304 Not Modified", 304), (b"ICY 399 y", 399), (b"HTTP/1.1  404   Not  Found", 404)], Seg::Max(5), 7);
+    });
+    verif_harness!(c04_q_head_status_5xx_9xx, 40, {
+        status_table(&[(b"HTTP/1.1 500 e", 500), (b"HTTP/1.1 599 e", 599), (b"X 600 e", 600), (b"HTTP/1.1 999 e", 999), (b"HTTP/1.1 418 I'm a teapot \x80\xff", 418)], Seg::OneByte, 3);
+    });
+    verif_harness!(c04_q_head_status_invalid, 40, {
+        status_table(&[(b"HTTP/1.1 099 x", 0), (b"HTTP/1.1 1000 x", 0), (b"HTTP/1.1 20 x", 0), (b"HTTP/1.1 abc", 0), (b"HTTP/1.1", 0), (b"", 0), (b"HTTP/1.1 2\xc30", 0)], Seg::Whole, 16);
+    });
+
+    // ---- layouts with header fields (each run costs minutes: HeaderMap::append and the value path
+    // are expensive to execute symbolically even on concrete bytes)
+    verif_harness_hn!(c04_t_head_onehdr_trim, 60, {
+        head_case(
+            b"HTTP/1.0 404 NF\r\nSERVER:   ab  \r\n\r\n",
+            0,
+            Seg::Max(6),
+            8,
+            1,
+            &Want::Ok { status: 404, fields: &[Field { name: http::header::SERVER, value: b"ab" }] },
+        );
+        kani::cover!(true, "must: reached");
+    });
+    verif_harness_hn!(c04_t_head_folded_obstext, 40, {
+        head_case(
+            b"HTTP/1.1 200 OK\r\nserver: fo\x80\n ba\xff\r\n\r\n",
+            0,
+            Seg::Max(6),
+            8,
+            1,
+            &Want::Ok { status: 200, fields: &[Field { name: http::header::SERVER, value: b"fo\x80  ba\xff" }] },
+        );
+        kani::cover!(true, "must: reached");
+    });
+    verif_harness_hn!(c04_t_head_dup_order, 70, {
+        head_case(
+            b"HTTP/1.1 200 OK\r\nSet-Cookie: a\r\nServer:\r\nSET-COOKIE: b\r\n\r\n",
+            1,
+            Seg::Whole,
+            64,
+            3,
+            &Want::Ok {
+                status: 200,
+                fields: &[
+                    Field { name: http::header::SET_COOKIE, value: b"a" },
+                    Field { name: http::header::SERVER, value: b"" },
+                    Field { name: http::header::SET_COOKIE, value: b"b" },
+                ],
+            },
+        );
+        kani::cover!(true, "must: reached");
+    });
+    verif_harness_hn!(c04_t_head_max_headers_exceeded, 60, {
+        head_case(b"HTTP/1.1 200 OK\r\nServer: a\r\nServer: b\r\n\r\n", 0, Seg::Whole, 64, 1, &Want::Err);
+        kani::cover!(true, "must: reached");
+    });
+    verif_harness_hn!(c04_t_head_no_colon, 40, {
+        head_case(b"HTTP/1.1 200 OK\r\nServer a\r\n\r\n", 0, Seg::Whole, 64, 10, &Want::Err);
+        kani::cover!(true, "must: reached");
+    });
+    verif_harness_hn!(c04_t_head_ctl_in_value, 40, {
+        head_case(b"HTTP/1.1 200 OK\r\nServer: a\x01\r\n\r\n", 0, Seg::Whole, 64, 10, &Want::Err);
+        kani::cover!(true, "must: reached");
+    });
+    verif_harness_hn!(c04_t_head_truncated, 40, {
+        head_case(b"HTTP/1.1 200 OK\r\nServer: a\r\n", 0, Seg::Whole, 64, 10, &Want::Err);
+        kani::cover!(true, "must: reached");
+    });
+    verif_harness!(c04_qtwin_head, 40, {
+        status_table(&[(b"HTTP/1.1 200 OK", 200)], Seg::Whole, 64);
+        assert!(false, "twin: must be reported as FAILURE");
+    });
+}
